@@ -56,11 +56,21 @@ func VH_C10_logout_post() {
 	kinds := []string{"samlp:LogoutRequest", "samlp:LogoutResponse", "samlp:Response"}
 	kind := kinds[vChoice("root.kind", 3)]
 	l := vhLogoutRoot(kind, vChoice("root.sig", 3), "root")
+	if kind != "samlp:Response" && vFlag("very-large-message") {
+		// more than a thousand elements before the message's own signature
+		l.root.CreateAttr("vx-many", "1")
+	}
 	if vFlag("wraps-genuine") {
 		// a genuine, validly signed logout message placed inside the (attacker-made) root
 		inner := vhLogoutRoot(kinds[vChoice("inner.kind", 2)], vhSigValid, "inner")
 		vAssume(inner.ID != l.ID)
 		l.root.CreateElement("samlp:Extensions").AddChild(inner.root)
+	}
+	if vFlag("earlier-rejected-message") {
+		// the process has just refused a message of the wrong kind (attacker-made, unsigned): the next one is judged alone
+		e := vhLogoutRoot("samlp:LogoutRequest", vhSigNone, "earlier")
+		_, eerr := sp.ValidateEncodedLogoutResponsePOST(vEncodeDoc("wire0", e.root, 0))
+		vDebugErr("earlier", eerr)
 	}
 	enc := vEncodeDoc("wire", l.root, vChoice("wire.mode", 2))
 	asRequest := vFlag("validate-as-request")
